@@ -91,4 +91,6 @@ var Table = []Entry{
 	{"errutil.NewWithDepthf(%w)", true, false, true, func(d int, tr *[]Frame) R { r := R{Err: errutil.NewWithDepthf(d, "x %w", leaf)}; *tr = append(*tr, Here()); return r }},
 	{"errutil.NewAssertionErrorWithWrappedErrDepthf(empty)", true, false, true, func(d int, tr *[]Frame) R { r := R{Err: errutil.NewAssertionErrorWithWrappedErrDepthf(d, leaf, "")}; *tr = append(*tr, Here()); return r }},
 	{"domains.PackageDomainAtDepth(twice)", true, true, false, func(d int, tr *[]Frame) R { _ = domains.PackageDomainAtDepth(d); r := R{Dom: domains.PackageDomainAtDepth(d)}; *tr = append(*tr, Here()); return r }},
+	{"errors.NewWithDepth(file-with-colon)", true, false, true, colonNew},
+	{"errors.WrapWithDepth(file-with-colon)", true, false, true, colonWrap},
 }
